@@ -11,6 +11,7 @@ use parking_lot::RwLock;
 #[cfg(feature = "verif")]
 use crate::verif::sync::RwLock;
 
+use crate::desc::{is_valid_label_name, is_valid_metric_name};
 use crate::errors::{Error, Result};
 use crate::metrics::Collector;
 use crate::proto;
@@ -239,6 +240,23 @@ impl Registry {
         if let Some(ref namespace) = prefix {
             if namespace.is_empty() {
                 return Err(Error::Msg("empty prefix namespace".to_string()));
+            }
+            if !is_valid_metric_name(namespace) {
+                return Err(Error::Msg(format!(
+                    "'{}' is not a valid metric name prefix",
+                    namespace
+                )));
+            }
+        }
+
+        if let Some(ref hmap) = labels {
+            for name in hmap.keys() {
+                if !is_valid_label_name(name) {
+                    return Err(Error::Msg(format!(
+                        "'{}' is not a valid label name",
+                        name
+                    )));
+                }
             }
         }
 
